@@ -185,6 +185,12 @@ func captureDir(dir string) *DirState {
 			return nil
 		}
 		rel, _ := filepath.Rel(dir, p)
+		if info.Mode()&os.ModeSymlink != 0 {
+			// a symbolic link is observed as what it points to (content and modification time)
+			if st, err := os.Stat(p); err == nil {
+				info = st
+			}
+		}
 		if info.IsDir() {
 			ds.Files = append(ds.Files, &FileState{P: rel, IsDir: true})
 			return nil
